@@ -119,9 +119,12 @@ func plans(thorough bool) []worldPlan {
 		}
 		ps = append(ps, worldPlan{cfg, d})
 	}
-	commonLen, chanLen, depth := 3, 2, 6
+	commonLen, chanLen, depth := 4, 3, 7
 	if thorough {
-		commonLen, chanLen, depth = 4, 3, 8
+		commonLen, chanLen, depth = 5, 4, 9
+	}
+	if v := os.Getenv("VERIF_C02_BOUNDS"); v != "" { // experiments: "common,chan,depth"
+		fmt.Sscanf(v, "%d,%d,%d", &commonLen, &chanLen, &depth)
 	}
 	// common logs x difference slicing
 	for _, log := range seqs([]string{"msg", "del", "enc"}, 1, commonLen) {
@@ -136,7 +139,7 @@ func plans(thorough bool) []worldPlan {
 	// every kind of pts-bearing other update, multi-count, envelopes
 	kinds := [][]string{{"msg", "edit"}, {"msg", "read"}, {"msg", "del2"}, {"del2", "msg"}, {"del2", "del"}, {"edit", "msg", "read"}, {"msg", "del2", "msg"}}
 	if thorough {
-		kinds = seqs([]string{"msg", "del2", "edit", "read"}, 1, 3)
+		kinds = seqs([]string{"msg", "del2", "edit", "read"}, 1, 4)
 	}
 	for _, log := range kinds {
 		for _, env := range []string{"", "short", "combined"} {
